@@ -15,6 +15,7 @@ import (
 	"github.com/lianxiangcloud/linkchain/types"
 
 	"verif/sim/kernel"
+	"verif/sim/simnode"
 )
 
 // ---------------------------------------------------------------- model
@@ -81,6 +82,24 @@ type Options struct {
 // Block is the chain's block type (for callers that only import this package).
 type Block = types.Block
 
+// Chain is the node assembly type (for callers that only import this package).
+type Chain = simnode.Chain
+
+// UTXOOutputs counts the confidential outputs a transaction creates.
+func UTXOOutputs(tx types.Tx) int {
+	ut, ok := tx.(*types.UTXOTransaction)
+	if !ok {
+		return 0
+	}
+	n := 0
+	for _, o := range ut.Outputs {
+		if _, ok := o.(*types.UTXOOutput); ok {
+			n++
+		}
+	}
+	return n
+}
+
 // KeyImages returns the key images a transaction spends.
 func KeyImages(tx types.Tx) []lk.Key { return keyImages(tx) }
 
@@ -95,7 +114,7 @@ type RunCfg struct {
 	Contracts bool // contract creation / self-destruct / calls in the mix
 	UTXO      bool // confidential transactions in the mix
 	Wallets   int
-	W         struct{ Next, Future, Stale, Conflict, Dup, Under, Over, BadGas, Fund, Spend, SpendAcc, KIConflict, KIDup, Create, CCall, Kill, ToFuture int }
+	W         struct{ Next, Future, Stale, Conflict, Dup, Under, Over, BadGas, Fund, Spend, SpendAcc, KIConflict, KIDup, Create, CCall, Kill, ToFuture, SpendAll, Respent int }
 	A         struct{ Start, Release, Reap, Block, Tick, Extra int }
 	ExtRate   int // of 8: share of block steps that build another proposer's block
 	HeavyPct  int // of 8: share of steps that also run the execute-the-offer oracle
@@ -140,6 +159,7 @@ type Engine struct {
 	dropGood    time.Duration
 	sinceCommit bool
 	flushing    bool
+	byzTarget   *Owned // ByzBlock("ki-later") re-spends this output when set
 	stopped     bool
 }
 
@@ -264,6 +284,7 @@ func drawCfg(c *kernel.Ctx, opt Options) RunCfg {
 		rc.UTXO = true
 		rc.Wallets = t.Range(2, 3)
 		w.Fund, w.Spend, w.SpendAcc, w.KIConflict, w.KIDup = t.Range(1, 3), t.Range(3, 8), t.Range(0, 3), t.Range(1, 4), t.Int(2)
+		w.SpendAll, w.Respent = t.Range(0, 3), t.Range(0, 2)
 		// the funder must be able to pay hidden amounts
 		rc.World.Balances[0] = new(big.Int).Mul(big.NewInt(1e18), big.NewInt(1000000))
 		if t.Bool(1, 3) {
@@ -582,7 +603,7 @@ func (e *Engine) gen() *MTx {
 	t := e.Work
 	w := e.Cfg.W
 	u := e.W.Users[t.Int(len(e.W.Users))]
-	kind := []string{"next", "future", "stale", "conflict", "dup", "under", "over", "badgas", "fund", "spend", "spendacc", "kiconflict", "kidup", "create", "ccall", "kill", "tofuture"}[t.Pick(w.Next, w.Future, w.Stale, w.Conflict, w.Dup, w.Under, w.Over, w.BadGas, w.Fund, w.Spend, w.SpendAcc, w.KIConflict, w.KIDup, w.Create, w.CCall, w.Kill, w.ToFuture)]
+	kind := []string{"next", "future", "stale", "conflict", "dup", "under", "over", "badgas", "fund", "spend", "spendacc", "kiconflict", "kidup", "create", "ccall", "kill", "tofuture", "spendall", "respent"}[t.Pick(w.Next, w.Future, w.Stale, w.Conflict, w.Dup, w.Under, w.Over, w.BadGas, w.Fund, w.Spend, w.SpendAcc, w.KIConflict, w.KIDup, w.Create, w.CCall, w.Kill, w.ToFuture, w.SpendAll, w.Respent)]
 	amt := e.amount(t)
 	to := e.recipient(t, u)
 	gap := uint64(t.Range(1, 3))
@@ -590,7 +611,7 @@ func (e *Engine) gen() *MTx {
 	c := e.committedNonce(u.Addr)
 	var m *MTx
 	switch kind {
-	case "fund", "spend", "spendacc", "kiconflict", "kidup":
+	case "fund", "spend", "spendacc", "kiconflict", "kidup", "spendall", "respent":
 		m = e.genUTXO(kind, u, pick)
 		if m != nil && m.Pure {
 			return m
